@@ -23,6 +23,7 @@ pub mod c11;
 pub mod c11p;
 pub mod c12;
 pub mod c13;
+pub mod c13p;
 pub mod c14;
 pub mod c15;
 pub mod c16;
@@ -49,6 +50,7 @@ pub fn registry() -> Vec<(&'static str, NativeFn)> {
     v.extend_from_slice(c12::REG);
     v.extend_from_slice(c13::REG);
     v.extend_from_slice(c13::geo::REG);
+    v.extend_from_slice(c13p::REG);
     v.extend_from_slice(c14::REG);
     v.extend_from_slice(c15::REG);
     v.extend_from_slice(c16::REG);
